@@ -34,7 +34,7 @@ impl Prop for C09 {
         "model_checking"
     }
     fn rule(&self, _t: Tier) -> String {
-        "every string over the 21-symbol relation character-class alphabet up to the length bound, and every sequence of 20 multi-character relation tokens up to the token bound (full input tries; states = strings), plus 12 fields per length with one token (name, blank run, version, list item, qualifier, substvar, line breaks, commas, non-ASCII run) stretched to 255 / 256 / 257 / 65535 / 65536 / 65537 characters, and every ASCII character (NUL and the control characters included) plus 14 non-ASCII ones between 15 prefixes and 8 suffixes that put it into every lexical context; each is parsed by parse_relaxed(_, false), parse_relaxed(_, true), Relations::from_str, Entry::from_str and Relation::from_str; every ordered pair of the three field readers is also run back to back on the same text and compared with the answers obtained in isolation (history independence); non-trivial = distinct string of the character space with >= 2 characters".into()
+        "every string over the 21-symbol relation character-class alphabet up to the length bound, and every sequence of 20 multi-character relation tokens up to the token bound (full input tries; states = strings), plus 12 fields per length with one token (name, blank run, version, list item, qualifier, substvar, line breaks, commas, non-ASCII run) stretched to 255 / 256 / 257 / 65535 / 65536 / 65537 characters, and every ASCII character (NUL and the control characters included) plus 14 non-ASCII ones between 22 prefixes and 8 suffixes that put it into every lexical context; each is parsed by parse_relaxed(_, false), parse_relaxed(_, true), Relations::from_str, Entry::from_str and Relation::from_str; every ordered pair of the three field readers is also run back to back on the same text and compared with the answers obtained in isolation (history independence); non-trivial = distinct string of the character space with >= 2 characters".into()
     }
     fn bounds(&self, t: Tier) -> Value {
         json!({"spaces": rel_space(t).describe()})
@@ -73,7 +73,9 @@ impl Prop for C09 {
             }
             // every ASCII character (NUL, DEL and the control characters included) and the sample of non-ASCII ones, in
             // every lexical context of a relationship field (the class alphabet has ONE representative per class)
-            const PRE: [&str; 15] = ["", "a", "a ", "a (", "a (>= ", "a (>= 1", "a [", "a [x ", "a <", "a <!", "${", "${a", "a, ", "a | ", "a:"];
+            const PRE: [&str; 22] = ["", "a", "a ", "a (", "a (>= ", "a (>= 1", "a [", "a [x ", "a <", "a <!", "${", "${a", "a, ", "a | ", "a:",
+                // ... and after a COMPLETED construct, where the parser expects '[', '<', ',' or '|'
+                "a (>= 1) ", "a [x] ", "a <x> ", "a <x> <", "a:any ", "a (>=", "a |"];
             const SUF: [&str; 8] = ["", "b", " b", ")", "]", ">", "}", ", b"];
             for c in crate::props::c01::w_chars() {
                 for p in PRE {
